@@ -388,6 +388,8 @@ def main(argv):
     if violations:
         for kind, name, detail in broken[:6]:
             log(f"broken [{kind}] {name}")
+        for d in disagreements[:3]:
+            log(f"  differs at line {d.get('line')}: op={str(d.get('op'))[:200]} | impl={str(d.get('impl'))[:200]} | model={str(d.get('model'))[:200]}")
         return 1
     log(f"{pid} {tier}: {discharged}/{obligations} obligations discharged, {compared} op lines agree with the model, {len(oracle)} oracle failures (all listed), {time.time()-t0:.1f}s")
     return 0
